@@ -165,9 +165,15 @@ CLAIMS = {
                  "and bound key-to-function consistently, lookups use the "
                  "validated name; attributes read on self exist after name "
                  "mangling; literal options flowing into validated parameters are "
-                 "accepted; the memoised directed matrix is never edited in place."),
-        "note": "Does NOT decide the counting formulas, ranges or symmetries of values.",
-        "technique": "registry/table agreement, undefined-attribute and option-flow rules over Python ast",
+                 "accepted; the memoised directed matrix is never edited in place. "
+                 "Exchange clause: in the pairwise ES and ECA kernels, swapping the "
+                 "roles of the two sequences maps every statement onto a statement of "
+                 "the same branch and the first returned direction onto the second."),
+        "note": ("Does NOT decide the counting formulas themselves, ranges, shift or "
+                 "rescaling invariance of the values."),
+        "technique": ("registry/table agreement, undefined-attribute and option-flow rules, "
+                      "and a syntactic role-swap analysis (swap map grown to a fixpoint, "
+                      "comparisons in polynomial normal form) over Python ast"),
     },
     "C17": {
         "text": ("Swap clause: each rewiring swap removes and adds the same "
